@@ -203,11 +203,12 @@ func (securityAssociation *SecurityAssociation) Unmarshal(b []byte) error {
 				if transform.AttributeFormat == 0 {
 					attributeLength := binary.BigEndian.Uint16(transformData[10:12])
 					// bounds checking
-					if (12 + attributeLength) != transformLength {
+					if (12 + int(attributeLength)) != int(transformLength) {
 						return errors.Errorf("Illegal attribute length %d not satisfies the transform length %d",
 							attributeLength, transformLength)
 					}
-					copy(transform.VariableLengthAttributeValue, transformData[12:12+attributeLength])
+					transform.VariableLengthAttributeValue = append(transform.VariableLengthAttributeValue,
+						transformData[12:12+int(attributeLength)]...)
 				} else {
 					transform.AttributeValue = binary.BigEndian.Uint16(transformData[10:12])
 				}
